@@ -21,8 +21,8 @@ CHECKS = {
          '(CPython lookup: hash then ==) behaves as an association list keyed by bit sequences (found through any equal buffer). '
          'Correspondence + oracle on all pairs up to 5/7 bits x 4 side combinations, random long ones, dict/set probes, Buffer==bytes.',
          'proof by refinement + model/code correspondence', '7 C13'),
- 'C16': ('Theorems c16_* about TWO models. (I) BufferHeap.v / SchcHeap.v: the Buffer class, and compress / decompress (field stage) / '
-         'field matching / rule-id dispatch, written over a heap of mutable Buffer OBJECTS (attribute reads and assignments, constructor calls, '
+ 'C16': ('Theorems c16_* about TWO models. (I) BufferHeap.v / SchcHeap.v / ParserHeap.v / ManagerHeap.v / ComputeHeap.v: the Buffer class, and compress / decompress with its compute stage / '
+         'field matching / rule-id dispatch / the parsers of all seven configurations / ContextManager / the front end, written over a heap of mutable Buffer OBJECTS (attribute reads and assignments, constructor calls, '
          'returned identities, exactly where the Python source has them). Proved for ALL heaps, references, arguments and outcomes incl. '
          'exceptions: an operation that is not explicitly in place only appends new objects (no existing object changes in any attribute), an '
          'in-place one changes at most its receiver, results of non-in-place operations are new objects, programs of any length inherit this, '
